@@ -80,8 +80,10 @@ def _reversed_cells(row):
     return {**fixed, **dict(rest[::-1])}
 
 
-def build(filled, deflang=None, delim="::", ref=False, second_select=True, deflang_arg=False, rev=False):
+def build(filled, deflang=None, delim="::", ref=False, second_select=True, deflang_arg=False, rev=False, search=False):
     F = normalise(filled)
+    if search:
+        second_select = False  # a search() list may not be shared with an ordinary select
     rows = []
     for i, (nm, ty) in enumerate(ROWS):
         row = {"type": ty, "name": nm}
@@ -91,6 +93,8 @@ def build(filled, deflang=None, delim="::", ref=False, second_select=True, defla
                 if ref and c in ("constraint_message", "required_message", "label", "hint"):
                     v += " ${inner}"
                 row[header(c, l, delim)] = v
+        if search and ty.startswith("select_one"):
+            row["appearance"] = "search('f')"
         if any(k.startswith("constraint_message") for k in row):
             row["constraint"] = ". != 'zz'"
         if any(k.startswith("required_message") for k in row):
